@@ -206,6 +206,14 @@ func (p *TUDPTransport) WriteString(s string) (int, error) {
 	return n, thrift.NewTTransportExceptionFromError(err)
 }
 
+// Discard drops everything written since the last Flush without sending it.
+// A writer that gives up in the middle of a message (for instance after a
+// write was refused because the message does not fit in one udp packet) must
+// call it, otherwise the abandoned bytes are prepended to the next message.
+func (p *TUDPTransport) Discard() {
+	p.writeBuf.Reset()
+}
+
 // Flush flushes the write buffer as one udp packet
 func (p *TUDPTransport) Flush() error {
 	if !p.IsOpen() {
